@@ -313,6 +313,7 @@ class PurityScenario(Scenario):
         add('array', 'ISQ', recipe={'kind': 'uniform', 'shape': 'SQ', 'lo': 0.0, 'hi': 5000.0, 'seed': sd()})
         add('array', 'CUBE', recipe={'kind': 'uniform', 'shape': 'CUBE', 'lo': 0.0, 'hi': 50.0, 'seed': sd()})
         add('array', 'QEV', recipe={'kind': 'uniform', 'shape': 'G1', 'lo': 0.1, 'hi': 0.9, 'seed': sd()})
+        add('array', 'QEN', recipe={'kind': 'list', 'values': [0.55, -0.02, 0.7]})      # a measured, dark-subtracted curve: one sample below zero
         add('array', 'GV', recipe={'kind': 'list', 'values': [1e-5, 0.02]})
         add('array', 'G2', recipe={'kind': 'uniform', 'shape': 'SQ', 'lo': 0.01, 'hi': 0.05, 'seed': sd()})
         add('array', 'G3', recipe={'kind': 'uniform', 'shape': 'G3', 'lo': 1e-6, 'hi': 0.02, 'seed': sd()})
@@ -928,11 +929,15 @@ class PurityScenario(Scenario):
 
         def detector():
             wave = [450.0, 550.0, 650.0]
-            qe = rng.choice([0.8, '@QEV', '@SP1', '@SP2'])
+            qe = rng.choice([0.8, '@QEV', '@SP1', '@SP2', '@QEN'])
             wu = 'nm'
-            out = [E('collect_charge', ['@CUBE', wave, qe], {'waveunit': wu}),
-                   E('collect_charge_bayer', ['@CUBE', wave], {'qe_red': 0.5, 'qe_green': '@QEV', 'qe_blue': rng.choice([0.7, '@SP1']),
-                                                               'bayer_pattern': 'RGGB', 'oversample': 1}),
+            sq_ = world['shapes']['SQ'][0]
+            bos = [1, 2] if sq_ % 4 == 0 else [1]
+            rng.shuffle(bos)
+            bk = {'qe_red': rng.choice([0.5, '@QEN']), 'qe_green': '@QEV', 'qe_blue': rng.choice([0.7, '@SP1']), 'bayer_pattern': rng.choice(['RGGB', 'BGGR'])}
+            out = [E('collect_charge', ['@CUBE', wave, qe], {'waveunit': wu})] + \
+                  [E('collect_charge_bayer', ['@CUBE', wave], dict(bk, oversample=o_)) for o_ in bos] + \
+                  [
                    E('pixel', ['@ISQ'], {'oversample': rng.choice([1, 2])}),
                    E('pixel', ['@IMG'], {'oversample': 1}),
                    E('pixelate', ['@ISQ'], {'oversample': 2}),
